@@ -8,8 +8,10 @@
     expressions per clause, default anywhere, fallthrough, break): Y transcribes the clause loops of
     switchStmt / switchIfStmt, the default swap of the pre-order pass and run.go _case; both models are run
     against yaegi and compiled Go on generated programs and the clause wiring is tied to cfg.go
-    ([C01_wiring_matches_source]).  The simulation theorem [C01_core_partial] does not cover switch yet:
-    [wf] rejects it.  The deviations of yaegi on switch are the [C01_switch_*_refuted] theorems.
+    ([C01_wiring_matches_source]).  The simulation theorem [C01_core_partial] covers the switch statements
+    accepted by [Wf.wf]: switch WITHOUT a tag, optional init statement, one condition per clause, default
+    clause last, at least one clause, no fallthrough, break and continue inside clause bodies, any nesting.
+    The deviations of yaegi on switch are the [C01_switch_*_refuted] theorems.
     The gap to the full property: functions, closures, composite data, range, goto, labels
     are covered by the behavioural streams of the harness only (compiled Go as the oracle). *)
 From Verif Require Import Core.Syntax Core.GoSem Core.Cfg Core.Wf Core.Proofs Core.Wiring.
@@ -21,8 +23,8 @@ Definition C01_statement : Prop :=
 (** Every well-formed program (any nesting depth, any number of iterations) that terminates under
     Go's semantics -- normally or by a division by zero -- terminates under yaegi's CFG machine with
     the same printed output and the same ending.  [wf_program] is decidable; each of its clauses is
-    the negation of a known-finding region (for-init-only, loop-empty-body, loopvar-assign); the last
-    clause restricts the theorem to programs without switch statements (simulation not proved yet). *)
+    the negation of a known-finding region (for-init-only, loop-empty-body, loopvar-assign); switch
+    statements are covered in the region described in the header (switch without a tag, no fallthrough, default last). *)
 Theorem C01_core_partial :
   forall p, wf_program p = true ->
   forall n out pk, GoSem.run n p = Done out pk -> exists m, Cfg.run m p = Done out pk.
@@ -69,7 +71,15 @@ Theorem C01_loop_empty_body_refuted :
 Proof. exact empty_body_refuted. Qed.
 Print Assumptions C01_loop_empty_body_refuted.
 
-(** Switch statements (models; the simulation theorem does not cover them yet, [wf] rejects them):
+(** Non-vacuity of [C01_core_partial] on switch: a well-formed program with a switch inside a loop. *)
+Theorem C01_switch_wf_inhabited :
+  wf_program w_switch_wf = true /\
+  GoSem.run 1000 w_switch_wf = Done [60; 64; 61; 64; 63; 64; 60; 64]%Z false /\
+  Cfg.run 4000 w_switch_wf = Done [60; 64; 61; 64; 63; 64; 60; 64]%Z false.
+Proof. exact switch_wf_inhabited. Qed.
+Print Assumptions C01_switch_wf_inhabited.
+
+(** Switch statements outside the proved region (models only):
     G and Y agree on a program with tagged and tagless switches, init, several case expressions,
     fallthrough, break and continue inside clauses, nested in a loop. *)
 Theorem C01_switch_models_inhabited :
